@@ -1,9 +1,10 @@
 (* C10 - Query results are sound, ordered and complete.
-   Statements only; see Proofs/Query.v and Proofs/QueryPool.v.  No hypotheses besides the run:
-   every configuration, target, candidate list, kind of query and event list is covered.
+   Statements only; see Proofs/Query.v, Proofs/QueryPool.v and Proofs/QueryGap.v.  No hypotheses
+   besides the run: every configuration, target, candidate list, kind of query and event list is
+   covered.
    See DESIGN.md section 6 (C09 / C10). *)
 From Coq Require Import List NArith Bool Sorted.
-From Discv5V Require Import Model.Query Proofs.Query Proofs.QueryPool.
+From Discv5V Require Import Model.Query Proofs.Query Proofs.QueryPool Proofs.QueryGap.
 Import ListNotations.
 Local Open Scope N_scope.
 
@@ -59,6 +60,99 @@ Theorem C10_complete_when_short :
 Proof. exact complete_when_short. Qed.
 Print Assumptions C10_complete_when_short.
 
+(* "every candidate it LEARNED OF was contacted".  A lookup learns of ids in two ways: the (first
+   num_results) candidates it is created with, and the ids reported to it by on_success calls.  An
+   on_success call for peer p in state q1 has an effect exactly when [success_accepted q1 p]: the
+   query is not Finished, p is in closest_peers and is Waiting or Unresponsive; any other call
+   returns without touching the query: *)
+Theorem C10_unaccepted_success_is_ignored :
+  forall q p closer, success_accepted q p = false -> on_success q p closer = Some q.
+Proof. exact on_success_rejected. Qed.
+Print Assumptions C10_unaccepted_success_is_ignored.
+
+Theorem C10_success_accepted_spec :
+  forall q p, success_accepted q p = true <->
+    prog q <> Finished /\
+    exists x, m_get (N.lxor p (target q)) (peers q) = Some x /\
+              ((exists t, pst x = Waiting t) \/ pst x = Unresponsive).
+Proof. exact success_accepted_spec. Qed.
+Print Assumptions C10_success_accepted_spec.
+
+(* reported_contacted: if the lookup finished by itself with fewer than num_results results, then
+   for every on_success call of the run that had an effect (the run splits at that call), every id
+   reported in it was handed out by next, i.e. contacted.  Together with the second clause of
+   C10_complete_when_short (the initial candidates) this is "every candidate it learned of". *)
+Theorem C10_reported_contacted :
+  forall k c t known evs q os,
+    run evs (with_config k c t known) = Some (q, os) ->
+    prog q = Finished ->
+    (length (into_result q) < N.to_nat (num_results c))%nat ->
+    forall evs1 p closer evs2 q1 os1,
+      evs = evs1 ++ ESuccess p closer :: evs2 ->
+      run evs1 (with_config k c t known) = Some (q1, os1) -> success_accepted q1 p = true ->
+      forall r, In r closer -> In (fst r) (emitted os).
+Proof. exact reported_contacted. Qed.
+Print Assumptions C10_reported_contacted.
+
+(* The same in set form.  [learned k c t known evs] = the ids of the first num_results candidates ++
+   the ids reported by the accepted on_success calls of the run ([learned_from], characterised by
+   C10_learned_from_spec).  At every point of every run these are exactly the ids the query holds
+   in closest_peers (nothing learned is ever dropped, nothing else is ever held) ... *)
+Theorem C10_learned_from_spec :
+  forall evs q0 q os, run evs q0 = Some (q, os) -> forall id,
+    In id (learned_from evs q0) <->
+    exists evs1 p closer evs2 q1 os1,
+      evs = evs1 ++ ESuccess p closer :: evs2 /\ run evs1 q0 = Some (q1, os1) /\
+      success_accepted q1 p = true /\ In id (map fst closer).
+Proof. exact learned_from_spec. Qed.
+Print Assumptions C10_learned_from_spec.
+
+Theorem C10_learned_exact :
+  forall k c t known evs q os,
+    run evs (with_config k c t known) = Some (q, os) ->
+    forall id,
+      In id (map fst (firstn (N.to_nat (num_results c)) known) ++ learned_from evs (with_config k c t known)) <->
+      exists d x, In (d, x) (peers q) /\ pkey x = id.
+Proof. exact learned_exact. Qed.
+Print Assumptions C10_learned_exact.
+
+(* ... only ids the lookup learned of are ever contacted (any run) ... *)
+Theorem C10_contacted_learned :
+  forall k c t known evs q os,
+    run evs (with_config k c t known) = Some (q, os) ->
+    forall id, In id (emitted os) -> In id (learned k c t known evs).
+Proof. exact contacted_learned. Qed.
+Print Assumptions C10_contacted_learned.
+
+(* ... and if the lookup finished by itself with a short result, every id it learned of was
+   contacted. *)
+Theorem C10_learned_contacted :
+  forall k c t known evs q os,
+    run evs (with_config k c t known) = Some (q, os) ->
+    prog q = Finished ->
+    (length (into_result q) < N.to_nat (num_results c))%nat ->
+    forall id, In id (learned k c t known evs) -> In id (emitted os).
+Proof. exact learned_contacted. Qed.
+Print Assumptions C10_learned_contacted.
+
+(* Non-vacuity: a lookup that finishes by itself with 1 < 3 results after an accepted on_success
+   call that reported a new id (2), which was then contacted (and failed). *)
+Example C10_reported_contacted_instance :
+  exists k c t known evs q os evs1 p closer evs2 q1 os1,
+    run evs (with_config k c t known) = Some (q, os) /\ prog q = Finished /\
+    (length (into_result q) < N.to_nat (num_results c))%nat /\
+    evs = evs1 ++ ESuccess p closer :: evs2 /\
+    run evs1 (with_config k c t known) = Some (q1, os1) /\ success_accepted q1 p = true /\
+    closer = [(2, true)] /\ emitted os = [1; 2] /\ learned k c t known evs = [1; 2].
+Proof.
+  exists KFindNode, {| parallelism := 1; num_results := 3; peer_timeout := 10 |}, 0, [(1, true)],
+         [ENext 0; ESuccess 1 [(2, true)]; ENext 1; EFailure 2; ENext 2].
+  eexists. eexists. exists [ENext 0], 1, [(2, true)], [ENext 1; EFailure 2; ENext 2]. eexists. eexists.
+  split; [vm_compute; reflexivity|]. split; [reflexivity|]. split; [vm_compute; repeat constructor|].
+  split; [reflexivity|]. split; [vm_compute; reflexivity|]. repeat split; vm_compute; reflexivity.
+Qed.
+Print Assumptions C10_reported_contacted_instance.
+
 (* The results the pool hands out are results of reachable query states, so the theorems above
    apply to them; a query handed out as Finished (not Timeout) is finished. *)
 Theorem C10_pool_results :
@@ -77,8 +171,8 @@ Qed.
 Print Assumptions C10_pool_results.
 
 (* Design observation (not a violation; "every candidate it learned of" is read as "every peer
-   the lookup holds": the first num_results seeds it accepted plus everything reported by
-   on_success).  with_config keeps only the first num_results candidates of the list it is given
+   the lookup holds": the first num_results seeds it accepted plus everything reported by the
+   on_success calls that had an effect - C10_learned_exact).  with_config keeps only the first num_results candidates of the list it is given
    (.take(num_results) before .collect(), the inherited Kademlia / libp2p design; the service hands
    in the whole routing table, closest first); the remaining seeds never enter the lookup and are
    never contacted, even if the lookup finishes by itself with a short result.  Witness: *)
